@@ -1,0 +1,29 @@
+//go:build verif
+
+package referenceclient
+
+// Trace hand-off on the reference client side (C16): the wire tracer stores the completed
+// trace in the wrapper found in the request's context and signals it by closing the wrapper's
+// channel - which must happen at most once per wrapper (a second close would panic): that is
+// the precondition here, discharged by the builder's exactly-once completion plus one HTTP
+// operation per captured context (the latter is an assumption about callers).
+
+//@ spec hasWrapper(ctx context.Context) bool = typeis(ctxVal(ctx, box(zero(wireCtxKey))), *wireWrapper)
+//@ spec wrapperOf(ctx context.Context) *wireWrapper = unbox(ctxVal(ctx, box(zero(wireCtxKey))), *wireWrapper)
+// a wrapper that has not received its trace yet (as created by withWireCapture)
+//@ spec pendingWrapper(ctx context.Context) bool = hasWrapper(ctx) ==> wrapperOf(ctx) != nil && allocated(wrapperOf(ctx)) && wrapperOf(ctx).traceAvailable != nil && !chanClosed[wrapperOf(ctx).traceAvailable]
+
+//@ func setWireTrace
+//@   requires ctx != nil && pendingWrapper(ctx)
+//@   modifies chanClosed, tracer.Trace.*
+//@   ensures @stored hasWrapper(ctx) ==> chanClosed[wrapperOf(ctx).traceAvailable] && wrapperOf(ctx).trace.TestName == trace.TestName &&
+//@        wrapperOf(ctx).trace.Events == trace.Events && wrapperOf(ctx).trace.Response == trace.Response && wrapperOf(ctx).trace.Err == trace.Err
+//@   ensures @nowrapper !hasWrapper(ctx) ==> chanClosed == old(chanClosed)
+
+// Complete: records the trace for the wire examiner, then passes it on to the tracer (if any)
+// unchanged.
+//@ func (*wireTracer).Complete
+//@   requires t != nil && trace.Request != nil && pendingWrapper(reqCtx(trace.Request))
+//@   modifies chanClosed, tracer.Trace.*, tracer.traceResult.*, held
+//@   ensures @stored hasWrapper(reqCtx(trace.Request)) ==> chanClosed[wrapperOf(reqCtx(trace.Request)).traceAvailable] &&
+//@        wrapperOf(reqCtx(trace.Request)).trace.TestName == trace.TestName && wrapperOf(reqCtx(trace.Request)).trace.Events == trace.Events
